@@ -202,3 +202,37 @@ def gen_delays(nrng, nlines, ndatasets=1, kmax=64, polarity_independent=False, d
     if polarity_independent:
         d[:] = d[:, :, :1, :1]
     return d.astype(dtype)
+
+
+def live_mask(sim, c):
+    """Boolean array like `c`: True for the entries that belong to a waveform - from the start of every mapped slot up to and including its
+    terminator (first entry >= TMAX), per lane.  Rows beyond c_len (padding of a buffer), entries behind a terminator and rows no slot maps
+    are not part of any waveform; their content is unspecified."""
+    c = np.asarray(c)
+    mask = np.zeros(c.shape, dtype=bool)
+    locs, caps = np.asarray(sim.c_locs), np.asarray(sim.c_caps)
+    seen = set()
+    for loc, cap in zip(locs.tolist(), caps.tolist()):
+        if loc < 0 or cap <= 0 or (loc, cap) in seen:
+            continue
+        seen.add((loc, cap))
+        seg = c[loc:loc + cap]
+        term = seg >= TMAX
+        first = np.where(term.any(axis=0), term.argmax(axis=0), cap - 1)
+        mask[loc:loc + cap] |= np.arange(seg.shape[0])[:, None] <= first[None, :]
+    return mask
+
+
+def same_waveforms(sim_a, c_a, sim_b, c_b, skip_idx=()):
+    """True iff two simulators with the same memory map hold the same waveforms (entries up to each terminator); padding rows, content behind
+    terminators and the slots listed in skip_idx (scratch) are ignored"""
+    c_a, c_b = np.asarray(c_a), np.asarray(c_b)
+    n = min(int(sim_a.c_len), int(sim_b.c_len))
+    if int(sim_a.c_len) != int(sim_b.c_len) or c_a.shape[1] != c_b.shape[1]:
+        return False
+    ma, mb = live_mask(sim_a, c_a)[:n], live_mask(sim_b, c_b)[:n]
+    for idx in skip_idx:
+        lo, cap = int(sim_a.c_locs[idx]), int(sim_a.c_caps[idx])
+        ma[lo:lo + cap] = False
+        mb[lo:lo + cap] = False
+    return bool(np.array_equal(ma, mb) and np.array_equal(c_a[:n][ma], c_b[:n][mb]))
